@@ -64,10 +64,13 @@ pub mod filter {
     }
     /// permission: the record the user-supplied line filter may be handed (DESIGN 3.4)
     pub uninterp spec fn filter_ok(record: &Record) -> bool;
+    /// token fact: only a call of the line filter's write establishes it
+    pub uninterp spec fn filter_called() -> bool;
     pub trait LogLineFilter: Send + Sync {
         fn write(&self, now: &mut DeferredNow, record: &Record, log_line_writer: &dyn LogLineWriter) -> std::io::Result<()>
             requires
                 filter_ok(record), //@label LogLineFilter::write.perm C02,C13
+            ensures filter_called(),
         ;
     }
 }
@@ -77,10 +80,13 @@ pub mod primary_writer {
     use log::Record;
     //@ opaque src/primary_writer.rs enum PrimaryWriter
     pub uninterp spec fn pw_ok(record: &Record) -> bool;
+    /// token fact: only a call of PrimaryWriter::write establishes it
+    pub uninterp spec fn pw_written() -> bool;
     impl PrimaryWriter {
         //@ sig src/primary_writer.rs impl PrimaryWriter / fn write
         //@   props C02,C13
         //@   req[PrimaryWriter::write.perm] pw_ok(record)
+        //@   ens pw_written()
         //@ sig src/primary_writer.rs impl PrimaryWriter / fn flush
     }
     impl super::filter::LogLineWriter for PrimaryWriter {
@@ -94,6 +100,8 @@ pub mod writers {
     use log::Record;
     /// permission: which additional writer (by identity) may be handed which record
     pub uninterp spec fn ow_ok(wid: int, record: &Record) -> bool;
+    /// token fact: only a call of write on the additional writer with this identity establishes it
+    pub uninterp spec fn ow_written(wid: int) -> bool;
     /// SHIM: the methods of `trait LogWriter` that FlexiLogger calls
     pub trait LogWriter: Send + Sync {
         spec fn max_log_level_spec(&self) -> log::LevelFilter;
@@ -102,6 +110,7 @@ pub mod writers {
         fn write(&self, now: &mut DeferredNow, record: &Record) -> std::io::Result<()>
             requires
                 ow_ok(self.wid(), record), //@label LogWriter::write.perm C13
+            ensures ow_written(self.wid()),
         ;
         fn flush(&self) -> std::io::Result<()>;
         fn max_log_level(&self) -> (r: log::LevelFilter)
@@ -188,6 +197,12 @@ pub mod flexi_logger {
     //@   req[log.pre.filter] forall|r: &log::Record| #[trigger] super::filter::filter_ok(r) <==> (r == record && self.has_filter() && self.primary_allowed(record))
     //@   req[log.pre.ow] forall|id: int, r: &log::Record| #[trigger] super::writers::ow_ok(id, r) <==> (r == record && self.addressed(record_target(record), id))
     //@   loop 1 iter it
+    //@   loop 1 inv[log.loop.written] forall|k: int| 0 <= k < it.index@ && pieces(record_target(record))[k] != "_Default"@ && (#[trigger] str_lookup(self.writers(), pieces(record_target(record))[k])) is Some
+    //@       ==> super::writers::ow_written(str_lookup(self.writers(), pieces(record_target(record))[k])->Some_0.wid())
+    //@   loop 1 inv[log.loop.default_seen] (exists|k: int| 0 <= k < it.index@ && #[trigger] pieces(record_target(record))[k] == "_Default"@) ==> use_default
+    //@   ens[log.post.every_named_writer] forall|k: int| is_brace(record_target(record)) && 0 <= k < pieces(record_target(record)).len() && pieces(record_target(record))[k] != "_Default"@
+    //@       && (#[trigger] str_lookup(self.writers(), pieces(record_target(record))[k])) is Some ==> super::writers::ow_written(str_lookup(self.writers(), pieces(record_target(record))[k])->Some_0.wid())
+    //@   ens[log.post.default_channel] self.primary_allowed(record) ==> (if self.has_filter() { super::filter::filter_called() } else { super::primary_writer::pw_written() })
     //@   loop 1 inv[log.loop.default] use_default ==> exists|k: int| 0 <= k < it.index@ && #[trigger] pieces(record_target(record))[k] == "_Default"@
     //@   loop 1 inv it.seq().len() == pieces(record_target(record)).len() && forall|k: int| 0 <= k < it.seq().len() ==> (#[trigger] it.seq()[k])@ == pieces(record_target(record))[k]
     //@   closure ~text_filter.map_or ## sig |text_filter: Option<&Regex>| -> (r: bool)
